@@ -6,7 +6,7 @@
    flattening; none of the engine's strategies appears here.
    [None] means "this tree has no meaning" (it is not well-typed). *)
 From Coq Require Import List ZArith NArith Bool.
-From WF Require Import Base.Bytes Sem.RangeSet Spec.C09 Lang.Types Lang.Ast Lang.Context.
+From WF Require Import Base.Bytes Sem.RangeSet Sem.Matchers Spec.C09 Lang.Types Lang.Ast Lang.Context.
 Import ListNotations.
 
 (* ---- paths ---- *)
@@ -70,13 +70,15 @@ Definition cmp_holds (sch : scheme) (op : cmpop) (c : ctx) (v : value) : option 
   match op, v with
   | CIsTrue, VBool b => Some b
   | COrd o (RInt z), VInt a => Some (ord_holds o (Some (a ?= z)%Z))
-  | COrd o (RBytes b), VBytes a => Some (ord_holds o (Some (bytes_compare a b)))
+  | COrd o (RBytes b _), VBytes a => Some (ord_holds o (Some (bytes_compare a b)))
   | COrd o (RIp b), VIp a => Some (ord_holds o (ip_compare a b))
   | CBitAnd z, VInt a => Some (negb (Z.land a z =? 0)%Z)
-  | CContains p, VBytes h => Some (occurs_spec p h)
+  | CContains p _, VBytes h => Some (occurs_spec p h)
+  | CMatches pat _, VBytes h => option_map (fun r => regex_run r h) (regex_compile pat)
+  | CWildcard strict pat _, VBytes h => wildcard_match strict pat h
   | COneOfInt l, VInt a => Some (spec_in_int l (Some a))
   | COneOfIp l, VIp a => Some (spec_in_ip l (Some a))
-  | COneOfBytes l, VBytes a => Some (spec_in_bytes l (Some a))
+  | COneOfBytes l, VBytes a => Some (spec_in_bytes (map fst l) (Some a))
   | CInList _ name, (VInt _ | VBytes _ | VIp _) =>
       (* the matcher installed for the value's type, asked with the list name *)
       match list_index sch (type_of v) with
